@@ -17,10 +17,13 @@ Bound (stated in the evidence):
   recurrent family 3 templates x requested re-iterations 0..max_iterations+1 x default / no default; a retrying node
                    inside a recurrent subgraph x 5 x 5 outcome sequences over two iterations
 
+  collaborators    5 templates x an event manager raising at every event site / the store raising at every save, and the caller
+                   cancelling the run at 6 points in time (termination, CancelledError only, nothing left behind)
+
 Outside the family on purpose (genuine known findings of the unchanged tree, each with its own obligation and
 demonstration): candidates returning None, switch labels matching no case, a case node that another consumer also uses,
-a candidate that depends on another one-of's consumer, switch / one-of inside a recurrent subgraph, collaborators (event
-managers, stores) that raise or suspend, cancellation by the caller; a second save of the same value for a node that two
+a candidate that depends on another one-of's consumer, switch / one-of inside a recurrent subgraph, stores whose save
+really suspends; a second save of the same value for a node that two
 scopes request (C19 known finding) is tolerated in the one template that has such a node.
 
 usage: /venv/bin/python bounded/engine.py [--json FILE] [--only acyclic|retry|recurrent]
@@ -44,7 +47,8 @@ logging.disable(logging.CRITICAL)
 BOUND = ('acyclic: 15 templates x <=1 failing node at every position x both switch labels x 5 completion orders x '
          '(first run, second run, two overlapped runs); retry: attempts 1..3 x use_default x narrow/default exceptions x '
          'all outcome sequences; recurrent: 3 templates x 0..max+1 requested re-iterations x default / no default, and a retrying '
-         'node inside a recurrent subgraph x 25 outcome sequences')
+         'node inside a recurrent subgraph x 25 outcome sequences; collaborators: 5 templates x every event / save site raising, '
+         'and 6 cancellation points')
 FAILURES = []
 N_CASES = [0]
 RUN_KEY = contextvars.ContextVar('run_key', default=None)
@@ -859,12 +863,115 @@ async def retry_in_recurrent():
 
 
 # ----------------------------------------------------------------------------------------------------------------------
+# collaborators that raise, callers that cancel (C02, C13)
+# ----------------------------------------------------------------------------------------------------------------------
+class CollabError(Exception):
+    pass
+
+
+async def collab():
+    counter = itertools.count(9000000)
+    wanted = {'chain', 'rhombus', 'oneof', 'switch', 'shared'}
+    for tname, spec in acyclic_templates():
+        if tname not in wanted:
+            continue
+        order = topo(spec)
+        delays = {n: 0.002 * (i + 1) for i, n in enumerate(order)}
+        nid_of = lambda tag_, n: f'processor__{tag_}_{n}'.lower()
+        sites = [('event', 'pipeline_start', None), ('event', 'pipeline_complete', None)]
+        for n in order:
+            sites += [('event', 'node_start', n), ('event', 'node_complete', n), ('save', None, n)]
+        for kind_, ev_, node_ in sites:
+            for failing in ([frozenset()] + ([frozenset(['A'])] if 'A' in spec else [])):
+                N_CASES[0] += 1
+                tag = f'k{next(counter)}'
+                obs = Obs()
+                cfg = dict(failing=failing, label='l0', delays=delays)
+                cls = materialise(spec, tag, obs, cfg)
+                Events0, Store0 = collaborators(obs)
+                target = nid_of(tag, node_) if node_ else None
+
+                class Events(Events0):
+                    async def on_pipeline_start(self, ctx):
+                        await Events0.on_pipeline_start(self, ctx)
+                        if kind_ == 'event' and ev_ == 'pipeline_start':
+                            raise CollabError('pipeline_start')
+
+                    async def on_pipeline_complete(self, ctx, result):
+                        await Events0.on_pipeline_complete(self, ctx, result)
+                        if kind_ == 'event' and ev_ == 'pipeline_complete':
+                            raise CollabError('pipeline_complete')
+
+                    async def on_node_start(self, ctx, node_id):
+                        await Events0.on_node_start(self, ctx, node_id)
+                        if kind_ == 'event' and ev_ == 'node_start' and node_id == target:
+                            raise CollabError(f'node_start {node_id}')
+
+                    async def on_node_complete(self, ctx, node_id, error):
+                        await Events0.on_node_complete(self, ctx, node_id, error)
+                        if kind_ == 'event' and ev_ == 'node_complete' and node_id == target:
+                            raise CollabError(f'node_complete {node_id}')
+
+                class Store(Store0):
+                    async def save(self, node_id, data):
+                        await Store0.save(self, node_id, data)
+                        if kind_ == 'save' and node_id == target:
+                            raise CollabError(f'save {node_id}')
+
+                chart = PipelineChart(f'bounded_{tag}', build_dag(cls['In'], cls['Out']), artifact_store=Store, event_managers=[Events])
+                case = f'{kind_} {ev_ or ""} {node_ or ""} raises; failing={sorted(failing)}'
+                kind, res = await run_keyed(chart, 1, obs)
+                if kind == 'hung':
+                    fail('C02', f'collaborator-failure/{tname}', case, 'PipelineChart.run still pending after 3 s with an idle loop',
+                         'the run terminates when an event manager or the artifact store raises')
+                elif kind == 'raised' and not isinstance(res, CollabError):
+                    fail('C05', f'collaborator-failure/{tname}', case, f'run raised {type(res).__name__}: {res}',
+                         'a result, or the collaborator\'s own exception')
+                await settle(obs, f'collaborator-failure/{tname}', case)
+        # the caller cancels the run
+        for at in (0.0, 0.001, 0.003, 0.006, 0.012, 0.02):
+            N_CASES[0] += 1
+            tag = f'k{next(counter)}'
+            obs = Obs()
+            cfg = dict(failing=frozenset(), label='l0', delays=delays)
+            cls = materialise(spec, tag, obs, cfg)
+            Events, Store = collaborators(obs)
+            chart = PipelineChart(f'bounded_{tag}', build_dag(cls['In'], cls['Out']), artifact_store=Store, event_managers=[Events])
+            case = f'caller cancels the run {at} s after starting it'
+
+            async def go():
+                RUN_KEY.set(1)
+                return await chart.run(input_kwargs=dict(x=1))
+            task = asyncio.ensure_future(go())
+            await asyncio.sleep(at)
+            already = task.done()
+            task.cancel()
+            done, _ = await asyncio.wait({task}, timeout=3.0)
+            obs.ended.add(1)
+            if not done:
+                fail('C13', f'cancellation/{tname}', case, 'the cancelled run did not finish within 3 s', 'cancelling a run never hangs')
+                continue
+            if not already:
+                try:
+                    task.result()
+                    if not task.cancelled():
+                        pass        # the run had just finished: fine
+                except asyncio.CancelledError:
+                    pass
+                except BaseException as e:   # noqa
+                    fail('C13', f'cancellation/{tname}', case, f'the canceller got {type(e).__name__}: {e}', 'CancelledError only')
+            await settle(obs, f'cancellation/{tname}', case)
+
+
+# ----------------------------------------------------------------------------------------------------------------------
 def _job(job):
     kind, arg = job
     if kind == 'acyclic':
         asyncio.run(acyclic({arg}))
     elif kind == 'retry':
         asyncio.run(retry())
+    elif kind == 'collab':
+        asyncio.run(collab())
     else:
         asyncio.run(recurrent())
         asyncio.run(retry_in_recurrent())
@@ -881,6 +988,8 @@ def main():
         jobs.append(('retry', None))
     if only in (None, 'recurrent'):
         jobs.append(('recurrent', None))
+    if only in (None, 'collab'):
+        jobs.append(('collab', None))
     failures, cases = [], 0
     import concurrent.futures as cf
     import multiprocessing as mp
